@@ -957,6 +957,12 @@ func (e *env) verify(ownTag string, ownMan string) (string, string) {
 	if ri.Problem != "" {
 		return "layout-index-invalid", ri.Problem + " " + ri.String()
 	}
+	if len(ri.Entries) == 0 {
+		e.class("state:verified-while-layout-index-empty")
+		if ownTag != "" || ownMan != "" {
+			e.class("state:layout-emptied-by-a-delete")
+		}
+	}
 	for _, t := range Tags {
 		ents := ri.forTag(t)
 		want, has := mod.tags[t]
